@@ -284,6 +284,7 @@ pub struct Stats {
     pub gate_waits: u64,
     pub max_blocked_threads: u64,
     pub dup_checks: u64,
+    pub order_checks_tiny: u64,
     pub dup_pos: u64,
 }
 
